@@ -749,6 +749,10 @@ class ESME:
             smpp_message: SmppMessage = message_class.from_pdu(
                 pdu, header, self.default_encoding, self.custom_codecs
             )
+            if isinstance(smpp_message, DeliverSm):
+                # Receipt text is parsed (and cached) here so that a malformed receipt
+                # is handled like any other unparsable PDU
+                smpp_message.parse_receipt()
         except (ValueError, LookupError, StructError):
             if self._logger.isEnabledFor(ERROR):
                 self._logger.exception(
